@@ -12,4 +12,16 @@ CLAIMS = {
                 "fmt::format, f64 parsing and from_utf8 stubbed where stated; dev-profile semantics.",
     },
 }
+CH = "symbolic execution of the real Python module with CrossHair/Z3 (accepted only when confirmed over all paths)"
+CLAIMS["C19"] = {
+    "engine": "crosshair",
+    "technique": CH,
+    "design_ref": "DESIGN.md section 6, C19",
+    "text": "The inductive step of RPSPolicer.get_timeout is decided by Z3 for ALL integer states satisfying the invariant, all call "
+            "times and all interval lengths; bounded windows of 3 and 4 real calls are decided directly. The k-window statement for "
+            "arbitrary k is the telescoping of the step (paper argument, stated). Constructor refusal contracts involve float "
+            "arithmetic that CrossHair cannot exhaust; they are run but optional (reported as undecided).",
+    "note": "Trusted: CrossHair's model of CPython int semantics, Z3. The clock is an arbitrary non-decreasing integer. "
+            "Float rounding in int(1e9 / rps), NaN/inf rates and real sleeping are outside the claim.",
+}
 NOT_APPLICABLE = {}
